@@ -217,14 +217,16 @@ pub fn plan(shape: &BaseShape, ps: u64, scratch: &Path, window: usize) -> Result
     })
 }
 
-pub const N_FAMILIES: usize = 5;
+pub const N_FAMILIES: usize = 7;
 pub fn family_name(f: usize) -> &'static str {
     match f {
         0 => "delete-ascending",
         1 => "delete-descending",
         2 => "insert-between",
         3 => "delete-commit-reinsert",
-        _ => "delete-and-insert-neighbour",
+        4 => "delete-and-insert-neighbour",
+        5 => "delete-and-modify-surviving-nested-buckets",
+        _ => "modify-nested-buckets-then-delete",
     }
 }
 
@@ -334,7 +336,7 @@ pub fn subset_history(p: &Plan, wi: usize, mask: u32, family: usize) -> History 
                 reopen: true,
             });
         }
-        _ => {
+        4 => {
             for (n, i) in chosen.iter().enumerate() {
                 ops.push(del(*i));
                 if n % 2 == 0 {
@@ -346,6 +348,38 @@ pub fn subset_history(p: &Plan, wi: usize, mask: u32, family: usize) -> History 
                 ops,
                 end: End::Commit,
                 reopen: false,
+            });
+        }
+        _ => {
+            // nested buckets that survive are modified in the same transaction as the deletions
+            let survivors: Vec<usize> = (0..sh.n_keys).filter(|i| is_bucket(sh, *i) && !chosen.contains(i)).collect();
+            let mut nh = 1;
+            let mut touch = |ops: &mut Vec<Op>| {
+                for (n, i) in survivors.iter().enumerate() {
+                    ops.push(Op::GetB { h: 0, k: key(*i, 0, sh.key_len), how: How::Slice });
+                    ops.push(Op::Put { h: nh, k: K::lit(b"touched"), v: V { tag: 9500 + n as u64, len: 30 + 200 * (n % 3) }, how: How::Slice, vhow: How::Slice });
+                    if n % 2 == 1 {
+                        ops.push(Op::Delete { h: nh, k: K::lit(b"inner") });
+                    }
+                    nh += 1;
+                }
+            };
+            if family == 6 {
+                touch(&mut ops);
+            }
+            for i in &chosen {
+                ops.push(del(*i));
+            }
+            if family == 5 {
+                touch(&mut ops);
+            }
+            ops.push(Op::Scan { h: 0 });
+            txs.push(TxScript { ops, end: End::Commit, reopen: false });
+            // and once more afterwards, so that pages freed twice or never written show up
+            txs.push(TxScript {
+                ops: vec![Op::TxGet { k: K::lit(b"t"), how: How::Slice }, Op::Put { h: 0, k: key(0, 7, sh.key_len), v: V { tag: 9999, len: sh.val_len }, how: How::Slice, vhow: How::Slice }],
+                end: End::Commit,
+                reopen: true,
             });
         }
     }
@@ -365,6 +399,47 @@ pub fn subset_history(p: &Plan, wi: usize, mask: u32, family: usize) -> History 
             family_name(family)
         ),
     }
+}
+
+/// Directed family: free lists that span several pages, growing and shrinking by more than a page
+/// in one commit (delete a big bucket, refill, delete again), also with multi-page values.
+pub fn big_freelist_history(ps: u64, index: usize) -> Option<History> {
+    if index >= 6 {
+        return None;
+    }
+    let n_keys = [200usize, 320, 450][index % 3];
+    let vlen = if index >= 3 { 2 * ps as usize + 50 } else { ps as usize - 120 };
+    let mk = |h: H, j: usize, tag: u64, len: usize| Op::Put { h, k: K { pre: format!("big{:05}", j).into_bytes(), fill: 6, post: vec![] }, v: V { tag, len }, how: How::Slice, vhow: How::Slice };
+    let mut txs = Vec::new();
+    // tx0: a big bucket and a small one
+    let mut ops = vec![Op::TxCreate { k: K::lit(b"big"), how: How::Slice }, Op::TxCreate { k: K::lit(b"keep"), how: How::Slice }];
+    for j in 0..n_keys {
+        ops.push(mk(0, j, 100 + j as u64, vlen));
+    }
+    for j in 0..5 {
+        ops.push(mk(1, j, 900 + j as u64, 40));
+    }
+    txs.push(TxScript { ops, end: End::Commit, reopen: false });
+    // tx1: delete the big bucket -> hundreds of free pages
+    txs.push(TxScript { ops: vec![Op::TxDelete { k: K::lit(b"big"), how: How::Slice }], end: End::Commit, reopen: index % 2 == 0 });
+    // tx2: small change (free list rewritten, still long)
+    txs.push(TxScript { ops: vec![Op::TxGet { k: K::lit(b"keep"), how: How::Slice }, mk(0, 1, 2000, 60)], end: End::Commit, reopen: false });
+    // tx3: refill most of it in one go -> the free list shrinks by several pages in one commit
+    let mut ops = vec![Op::TxCreate { k: K::lit(b"big"), how: How::Slice }];
+    for j in 0..(n_keys * 4 / 5) {
+        ops.push(mk(0, j, 3000 + j as u64, vlen));
+    }
+    txs.push(TxScript { ops, end: End::Commit, reopen: false });
+    // tx4: delete half of the keys one by one (many merges), tx5: small change, tx6: delete the bucket again
+    let mut ops = vec![Op::TxGet { k: K::lit(b"big"), how: How::Slice }];
+    for j in (0..(n_keys * 4 / 5)).step_by(2) {
+        ops.push(Op::Delete { h: 0, k: K { pre: format!("big{:05}", j).into_bytes(), fill: 6, post: vec![] } });
+    }
+    txs.push(TxScript { ops, end: End::Commit, reopen: false });
+    txs.push(TxScript { ops: vec![Op::TxGet { k: K::lit(b"keep"), how: How::Slice }, mk(0, 2, 4000, 70)], end: End::Commit, reopen: true });
+    txs.push(TxScript { ops: vec![Op::TxDelete { k: K::lit(b"big"), how: How::Slice }, Op::TxGet { k: K::lit(b"keep"), how: How::Slice }, mk(1, 3, 5000, 80)], end: End::Commit, reopen: false });
+    txs.push(TxScript { ops: vec![Op::TxGet { k: K::lit(b"keep"), how: How::Slice }, mk(0, 4, 6000, 90)], end: End::Commit, reopen: true });
+    Some(History { pagesize: ps, num_pages: 8, strict: false, populate: false, txs, origin: format!("big free list: {} keys x {} B values", n_keys, vlen) })
 }
 
 // ---------------------------------------------------------------------------
